@@ -88,10 +88,8 @@ class P(Prop):
 
     def generate(self, rng, tier, n):
         for _ in range(n):
-            content = fc.gen_content(rng, allow_empty=False)
+            content = fc.gen_content(rng, allow_empty=True)
             cls = rng.choice(fc.MUT_CLASSES)
-            if not content:
-                content = "x\n"
             nl = content.count("\n") + (0 if content.endswith("\n") else 1)
             lines = [l.rstrip("\r") for l in content.split("\n")]
             yield dict(content=list(content.encode("utf-8")), cls=cls, ops=self.gen_ops(rng, nl, rng.randint(0, 25), lines[:nl]),
